@@ -79,7 +79,9 @@ impl Env<'_> {
     }
 }
 
-const BASES: [&str; 12] = ["foo", "bar", "foo-bar", "fo", "baz", "f", "fox-bar", "fxo", "ber", "ab", "ad", "bar-bar"];
+// (among them bases of which one is a prefix of another and continues with a byte below
+// '-' or with "-<digit>": there the whole-name order and the (base, version) order differ)
+const BASES: [&str; 15] = ["foo", "bar", "foo-bar", "fo", "baz", "f", "fox-bar", "fxo", "ber", "ab", "ad", "bar-bar", "foo+", "foo-0", "foo+-0"];
 const VERSIONS: [&str; 112] = [
     // a component saturated to i64::MAX meeting a negative modifier or a small number at the same position
     "1.99999999999999999999", "1.alpha", "1.beta1", "1.rc", "1.pre2", "1.5", "1.9223372036854775807", "1.0", "1alpha", "199999999999999999999",
@@ -628,6 +630,27 @@ fn merge_step(
         crate::c17::expansion_count(pat.pattern()).unwrap_or(1).min(100_000) as usize * (pat.pattern().len() + 64)
     } else {
         0
+    };
+    // when one name is a prefix of the other the two arguments are handed over as two
+    // slices of ONE buffer (same start address, different lengths), as a caller that
+    // cuts names out of a line does
+    let shared: Option<(&str, bool)> = if a != b && b.starts_with(a) {
+        Some((b, true))
+    } else if a != b && a.starts_with(b) {
+        Some((a, false))
+    } else {
+        None
+    };
+    let (a, b) = match shared {
+        Some((long, a_is_short)) => {
+            ctx.probe("arguments-share-a-buffer");
+            if a_is_short {
+                (&long[..a.len()], long)
+            } else {
+                (long, &long[..b.len()])
+            }
+        }
+        None => (a, b),
     };
     let r = on_thread!(env.helper, env.mask, env.next(), metered!(ctx, a.len() + b.len() + 64 + 2 * weight, pat.best_match(a, b)));
     let ma = on_thread!(env.helper, env.mask, env.next(), pat.matches(a));
